@@ -250,6 +250,17 @@ pub fn check_msg<T: Msg>(ctx: &mut Ctx, x: &T, inj: &Inject) -> Result<(), Strin
             return Err(format!("{name}: a duplicated member (key {:?}) was accepted", key_of(k)));
         }
         ctx.eval();
+        // the same key twice with a null in first, second or both places is still a duplicated member
+        let pos = map.iter().position(|(kk, _)| kk == k).unwrap_or(0);
+        for (first, second) in [(Cbor::Null, val.clone()), (val.clone(), Cbor::Null), (Cbor::Null, Cbor::Null)] {
+            let mut dup = map.clone();
+            dup[pos] = (k.clone(), first);
+            dup.insert(pos + 1, (k.clone(), second));
+            if from_cbor::<T>(&to_cbor(&Cbor::Map(dup))?).is_ok() {
+                return Err(format!("{name}: a member (key {:?}) occurring twice, once or twice as null, was accepted", key_of(k)));
+            }
+            ctx.eval();
+        }
     }
     // ---- missing required member => error
     for (k, required, _) in &members {
@@ -302,7 +313,11 @@ pub fn check_msg<T: Msg>(ctx: &mut Ctx, x: &T, inj: &Inject) -> Result<(), Strin
 // ------------------------------------------------------------------ strategies
 
 fn bytes(max: usize) -> impl Strategy<Value = passkey_types::Bytes> {
-    proptest::collection::vec(any::<u8>(), 0..=max).prop_map(Into::into)
+    // mostly short; now and then just around the 4096-byte scratch buffer of the CBOR reader
+    prop_oneof![
+        40 => proptest::collection::vec(any::<u8>(), 0..=max).prop_map(Into::into),
+        1 => (prop_oneof![Just(4095usize), Just(4096), Just(4097), 4098usize..6000], any::<u8>()).prop_map(|(n, fill)| (0..n).map(|i| fill.wrapping_add((i % 253) as u8)).collect::<Vec<u8>>().into()),
+    ]
 }
 
 fn text() -> impl Strategy<Value = String> {
@@ -377,7 +392,7 @@ fn auth_data() -> impl Strategy<Value = AuthenticatorData> {
 }
 
 fn att_stmt() -> impl Strategy<Value = Cbor> {
-    prop_oneof![Just(Cbor::Map(vec![])), bytes(70).prop_map(|s| Cbor::Map(vec![(Cbor::Text("alg".into()), Cbor::Integer((-7).into())), (Cbor::Text("sig".into()), Cbor::Bytes(s.to_vec()))]))]
+    prop_oneof![8 => Just(Cbor::Map(vec![])), 1 => Just(Cbor::Null), 1 => Just(Cbor::Array(vec![])), 8 => bytes(70).prop_map(|s| Cbor::Map(vec![(Cbor::Text("alg".into()), Cbor::Integer((-7).into())), (Cbor::Text("sig".into()), Cbor::Bytes(s.to_vec()))]))]
 }
 
 fn mc_response() -> impl Strategy<Value = make_credential::Response> {
